@@ -320,7 +320,25 @@ def bind_label_sections(chk, bl):
                detail="`_target_section_id = %s` but the label's section is %s" % (nm, sorted({n_ for _, _, n_ in lab})), key="bindtarget|%d" % k)
 
 
-def written_buffer_sized(chk, rb):
+def _sets_size_always(g, pidx):
+    """does the unit helper g assign `<param pidx>->_buffer._size` on every path from its entry to its exit?"""
+    import re
+    if pidx >= len(g.params) or g.entry is None:
+        return False
+    pn = g.params[pidx]["name"]
+    blk = g.block_of()
+    sets = {blk[i][0] for i, x in g.ex.items() if x["k"] == "binop" and x["op"] == "=" and i in blk and
+            re.sub(r"\s+", "", g.text(x["lhs"])) == pn + "->_buffer._size"}
+    if not sets:
+        return False
+    if g.entry in sets:
+        return True
+    reach = g.reachable_from(g.entry, avoid=sets)
+    exits = {b["id"] for b in g.blocks.values() if not [s_ for s_ in b["succs"] if s_ is not None]}
+    return not (reach & exits)
+
+
+def written_buffer_sized(chk, rb, unit_fns=()):
     """R-WRITTEN-BUFFER-SIZED: bytes stored into capacity that was only reserved become part of the section through `_size` alone"""
     import re
     from .must import branch_atoms
@@ -379,6 +397,16 @@ def written_buffer_sized(chk, rb):
         for i, x in fn.ex.items():
             if x["k"] == "binop" and x["op"] == "=" and nows(x["lhs"]) == P + "->_buffer._size" and i in blk:
                 sizes.setdefault(blk[i][0], []).append(blk[i][1])
+        # a unit helper that receives the section and sets its buffer size on all of its paths counts as the assignment
+        by_name = {}
+        for g in unit_fns:
+            by_name.setdefault(g.name, []).append(g)
+        for i, x in fn.calls(lambda x: x["k"] == "call" and x.get("args")):
+            if i not in blk:
+                continue
+            for ai, a in enumerate(x["args"]):
+                if nows(a) == P and any(len(g.params) == len(x["args"]) and _sets_size_always(g, ai) for g in by_name.get(x.get("callee") or "", [])):
+                    sizes.setdefault(blk[i][0], []).append(blk[i][1])
         atoms = branch_atoms(fn)
 
         def null_edge(b, si):
